@@ -294,6 +294,20 @@ func init() {
 		}
 		return nil
 	}
+	I[rtPkg+"SpawnAfterDone"] = func(ex *Exec, a []Value) Value {
+		ex.spawn(a[0].(string), a[1].(*Closure))
+		spec := ex.conc.threads[len(ex.conc.threads)-1]
+		if sl, ok := a[2].(*SliceV); ok && sl.Arr != nil {
+			for i := 0; i < sl.Len; i++ {
+				s, ok := ex.rawLoad((&Ptr{Obj: sl.Arr}).child(sl.Off + i)).(string)
+				if !ok {
+					panic(unsupported("SpawnAfterDone: non-constant thread name"))
+				}
+				spec.AfterDone = append(spec.AfterDone, s)
+			}
+		}
+		return nil
+	}
 	I[rtPkg+"Parallel"] = func(ex *Exec, a []Value) Value {
 		ex.runParallel()
 		return nil
